@@ -35,15 +35,15 @@ def random_descriptor(rng, sel, body='record', allow_req=False):
   # a function that carries somebody else's functools.wraps decorator when it is registered
   deco = kind == 'fn' and api != 'configurable' and not any(v == ['req'] for _, v in dflt) and rng.random() < 0.2
   return dict(sel=sel, kind=kind, pos=pos, npd=npd, kwo=kwo, kwd=kwd, va=rng.random() < 0.3, vk=rng.random() < 0.3,
-              dflt=dflt, allow=allow, deny=deny, body=body, api=api, deco=deco)
+              dflt=dflt, allow=allow, deny=deny, body=body, api=api, deco=deco, twin=[])
 
 
 GIN_MACRO = dict(sel=['gin', 'macro'], kind='fn', pos=['value'], npd=0, kwo=[], kwd=[], va=False, vk=False, dflt=[],
-                 allow=['*'], deny=[], body='macro', api='builtin', deco=False)
+                 allow=['*'], deny=[], body='macro', api='builtin', deco=False, twin=[])
 GIN_CONSTANT = dict(sel=['gin', 'constant'], kind='fn', pos=[], npd=0, kwo=[], kwd=[], va=False, vk=False, dflt=[],
-                    allow=['*'], deny=[], body='const', api='builtin', deco=False)
+                    allow=['*'], deny=[], body='const', api='builtin', deco=False, twin=[])
 GIN_SINGLETON = dict(sel=['gin', 'singleton'], kind='fn', pos=['constructor'], npd=0, kwo=[], kwd=[], va=False, vk=False,
-                     dflt=[], allow=['*'], deny=[], body='singleton', api='builtin', deco=False)
+                     dflt=[], allow=['*'], deny=[], body='singleton', api='builtin', deco=False, twin=[])
 SCOPES = ['a', 'b', 'ab', 'W', 's1']
 CONST_NAMES = [['X'], ['m', 'X'], ['n', 'm', 'X'], ['n', 'Y']]
 
@@ -102,7 +102,7 @@ def drive(rng, length=14):
       deny = [rng.choice(free)]
     elif names and r < 0.7:
       allow = sorted(set(rng.sample(names, rng.randint(1, len(names))) + [n for n in names if n not in free]))
-    twin = dict(consumer, sel=['m', 'f2'], allow=allow, deny=deny, api=rng.choice(['external', 'register']), twin_of='m.f')
+    twin = dict(consumer, sel=['m', 'f2'], allow=allow, deny=deny, api=rng.choice(['external', 'register']), twin_of='m.f', twin=['m', 'f'])
     reg.insert(1, twin)
   world = A.World(reg, pool_seed=rng.randrange(1 << 30))
   events = []
